@@ -158,11 +158,24 @@ fn harness_origin(file: &str) -> bool {
     file.starts_with("src/") || file.starts_with("harness/src/")
 }
 
+thread_local! {
+    static LIB_FAULT: std::cell::Cell<bool> = std::cell::Cell::new(false);
+}
+
+/// The harness found the LIBRARY at fault at a point where no value can be produced (e.g. `delete_index` returned
+/// `None` for an index the history says exists): raised like a panic of the library, so that it is an observation.
+pub fn lib_fault(msg: &str) -> ! {
+    LIB_FAULT.with(|f| f.set(true));
+    panic!("{}", msg.to_string())
+}
+
 pub fn catch<T>(f: impl FnOnce() -> T) -> Result<T, String> {
     LAST_PANIC_FILE.with(|l| l.borrow_mut().clear());
+    LIB_FAULT.with(|f| f.set(false));
     catch_unwind(AssertUnwindSafe(f)).map_err(|e| {
         let file = LAST_PANIC_FILE.with(|l| l.borrow().clone());
-        if harness_origin(&file) {
+        let lib = LIB_FAULT.with(|f| f.replace(false));
+        if harness_origin(&file) && !lib {
             eprintln!("harness panic at {}", file);
             std::panic::resume_unwind(e);
         }
